@@ -10,6 +10,12 @@ S->C: Convolution.tla enumerates (frame, odd kernel shape, kernel variant, mask 
       simulate -> mask -> fit are run -- for 4 of 5 instances with a kernel OBJECT that has a history (derived by
       2.0 * base, -base, base + ndarray or item assignment from a base kernel that was already used in whole-frame
       convolutions and in a simulation), and compared with Convolver(mask, that same object).
+      Two further instance kinds of the bounded machine: STRUCTURED kernels (every pattern of zero / cancelling /
+      generic first, last and inner rows and columns, Sobel / Prewitt / Laplacian / diagonal kernels, single entries,
+      zero-padded kernels; operator extraction, image, basis matrix, whole frame) and SIMULATION instances (every
+      combination of the simulator options that keep the data noise-free: background sky 0 / small / large / negative,
+      sky subtracted or left in, three PSF normalisation routes, three noise-map settings); every other instance runs
+      simulate -> fit with one seeded combination.
 C->S: every abstracted result (floats / known power-of-two scale -> integers, off-lattice values rejected) is judged by
       Trace_Convolution.tla; the same for seeded random larger masks (holes, several components) with signed non-square
       kernels up to 7x7.
@@ -93,14 +99,15 @@ def struct_families(quick):
             level = "full" if (not quick or (kh, kw) == (3, 3)) else "light"
             out.append(family(H, W, kh, kw, 2, 2) + (level, "full"))
     if not quick:
-        out.append(family(6, 5, 3, 3, 2, 2, dy=1) + ("full", "all"))  # every mask of a 2x2 window x every structured 3x3 kernel
+        out.append(family(6, 5, 3, 3, 1, 2, dy=1) + ("full", "all"))  # every mask of a 1x2 window x every structured 3x3 kernel
     return out
 
 
 def sim_families(quick):
-    """Simulation families: every mask of a 1x2 window x every noise-free combination of simulator options."""
-    shapes = [(3, 3), (3, 5), (5, 3)] if quick else [(kh, kw) for kh in (1, 3, 5) for kw in (1, 3, 5)]
-    return [family(2 * (kh // 2) + 3, 2 * (kw // 2) + 4, kh, kw, 1, 2) for kh, kw in shapes]
+    """Simulation families: every mask of a small window x every noise-free combination of simulator options."""
+    if quick:  # 1x2 window (3 masks) for the 3x3 kernel, one pixel for two non-square kernels
+        return [family(5, 6, 3, 3, 1, 2), family(5, 8, 3, 5, 1, 1), family(7, 6, 5, 3, 1, 1)]
+    return [family(2 * (kh // 2) + 3, 2 * (kw // 2) + 4, kh, kw, 1, 2) for kh in (1, 3, 5) for kw in (1, 3, 5)]
 
 
 # Convolution!SimOptionSet: every combination of the simulator options that keep the simulated data noise-free
@@ -626,8 +633,13 @@ def run(ctx):
         "floats are small integers times 2^-12 (kernel) and 2^-12 / 1 (images, matrices): IEEE arithmetic is exact, alpha rejects "
         "anything farther than 1e-6 from the lattice",
         "arbitrary real payloads are covered through the extracted couplings (payload-independent clause, 1e-12 relative)",
-        "simulate->fit uses non-negative images and kernels (the simulator draws Poisson deviates from the image even with "
-        "noise off) whose entries sum to a power of two, so both normalisations are exact",
+        "simulate->fit uses positive images and non-negative kernels (the simulator draws Poisson deviates from image + sky "
+        "even with noise off, so a negative sky is admitted only while image + sky >= 0) whose entries sum to a power of two, "
+        "so both normalisations are exact; sky levels are multiples of the data unit 1/sum",
+        "with subtract_background_sky=False the documented behaviour ('otherwise it is left in') is judged: data = convolved "
+        "image + sky, fitted with zero residual once that declared sky is removed; the noise map itself is not judged",
+        "normalize_psf=False is exercised with unit-sum kernels only: Imaging re-normalises the PSF by default "
+        "(use_normalized_psf=True), so a non-unit-sum kernel is by design a different kernel in the dataset",
         "Kernel2D.convolved_array_from is judged on unmasked input arrays (its use in the simulator)",
         "kernel histories: the judged kernel's values are asserted (gamma) to be exactly the intended ones before it is used",
     ]
